@@ -1240,24 +1240,67 @@ def full(shape, v, dtype=None, **kw):
     return a
 
 
-def zeros_like(a, dtype=None, **kw):
+def _like_layout(a, out, order='K'):
+    """NumPy's *_like / copy default order 'K': a Fortran-contiguous prototype (and only that) yields a Fortran-ordered result"""
+    if order in ('K', 'A') and a.ndim == 2 and a.shape[0] > 1 and a.shape[1] > 1:
+        idx = a._idx
+        sy, sx = int(idx[1, 0]) - int(idx[0, 0]), int(idx[0, 1]) - int(idx[0, 0])
+        if sy == 1 and sx == a.shape[0]:
+            h, w = a.shape
+            fidx = _np.arange(h * w).reshape(w, h).T
+            buf = [None] * (h * w)
+            flat = out.flat_values()
+            for y in range(h):
+                for x in range(w):
+                    buf[int(fidx[y, x])] = flat[y * w + x]
+            r = SymArray(buf, fidx, out.dtype)
+            r._sx_layout = 'F'
+            return r
+    return out
+
+
+def asfortranarray(a, dtype=None):
+    a = asarray(a, dtype) if dtype is not None else asarray(a)
+    if a.ndim != 2 or a.shape[0] < 2 or a.shape[1] < 2:
+        return a
+    h, w = a.shape
+    fidx = _np.arange(h * w).reshape(w, h).T
+    if _np.array_equal(a._idx, fidx + (int(a._idx[0, 0]) - 0)) and len(a._buf) == h * w:
+        return a
+    buf = [None] * (h * w)
+    for y in range(h):
+        for x in range(w):
+            buf[int(fidx[y, x])] = a[y, x]
+    r = SymArray(buf, fidx, a.dtype)
+    r._sx_layout = 'F'
+    return r
+
+
+def ascontiguousarray(a, dtype=None):
+    a = asarray(a, dtype) if dtype is not None else asarray(a)
+    if a.ndim >= 1 and _np.array_equal(a._idx, _np.arange(a.size).reshape(a.shape) + int(a._idx.ravel()[0]) if a.size else a._idx):
+        return a
+    return SymArray.from_list(list(a.flat_values()), a.shape, a.dtype)
+
+
+def zeros_like(a, dtype=None, order='K', **kw):
     a = asarray(a)
-    return zeros(a.shape, dtype or a.dtype)
+    return _like_layout(a, zeros(a.shape, dtype or a.dtype), order)
 
 
-def ones_like(a, dtype=None, **kw):
+def ones_like(a, dtype=None, order='K', **kw):
     a = asarray(a)
-    return ones(a.shape, dtype or a.dtype)
+    return _like_layout(a, ones(a.shape, dtype or a.dtype), order)
 
 
-def empty_like(a, dtype=None, **kw):
+def empty_like(a, dtype=None, order='K', **kw):
     a = asarray(a)
-    return zeros(a.shape, dtype or a.dtype)
+    return _like_layout(a, zeros(a.shape, dtype or a.dtype), order)
 
 
-def full_like(a, v, dtype=None, **kw):
+def full_like(a, v, dtype=None, order='K', **kw):
     a = asarray(a)
-    return full(a.shape, v, dtype or a.dtype)
+    return _like_layout(a, full(a.shape, v, dtype or a.dtype), order)
 
 
 def _int_len(q):
